@@ -371,7 +371,7 @@ def main(modname, argv):
                 known_reproduced.append(e)
                 print('KNOWN-FINDING: property=%s %s' % (pid, e.get('what')))
             continue
-        if hasattr(mod, 'shrink'):
+        if hasattr(mod, 'shrink') and len(violations) < 4:
             try:
                 first = mod.shrink(first, cfg)
             except Exception:
